@@ -66,3 +66,31 @@ Fixpoint foreign_before_unlock (ops : list op) : bool :=
   | _ :: rest => foreign_before_unlock rest
   end.
 Definition T (i : input) : bool := foreign_before_unlock (i_ops i).
+
+(* ---- the same property without the ghost k, for runs whose interleaving is not known
+   (stress runs with free-running goroutines): the delivered events are the events of the
+   changes from some j on, and the Synchronization view the hook was given is the state after
+   some k' >= j changes (so nothing between the view and the first delivered event is missing) *)
+Fixpoint prefix_caches (types : list wkind) (cache : cache_t) (chs : list change) : list cache_t :=
+  cache :: match chs with
+           | [] => []
+           | c :: r => prefix_caches types (fst (w1 types c cache)) r
+           end.
+
+Definition last_sync_view (vs : list (N * cache_t)) : cache_t :=
+  fold_left (fun acc v => if N.eqb (fst v) 0 then snd v else acc) vs [].
+
+Definition P_free (i : input) (o : observation) : bool :=
+  negb (ob_bad o)
+  && N.eqb (ob_out_before_e o) 0
+  && (if ob_enabled o then true else match ob_out o with [] => true | _ => false end)
+  && (if ob_enabled o && N.eqb (ob_finished o) (N.of_nat (length (i_changes i)))
+      then let refs := ref_events (i_types i) [] (i_changes i) in
+           let caches := prefix_caches (i_types i) [] (i_changes i) in
+           let v := last_sync_view (ob_views o) in
+           let idx := seq 0 (S (length (i_changes i))) in
+           existsb (fun j => list_eqb event_eqb (ob_out o) (cat_some (skipn j refs))
+                             && existsb (fun k' => Nat.leb j k' && cache_eqb v (nth k' caches [])) idx) idx
+           && N.eqb (ob_buflen o) 0
+           && cache_eqb (ob_cache o) (ref_cache (i_types i) [] (i_changes i))
+      else true).
